@@ -6,7 +6,8 @@ against what the source says now.
 Tables: capability marker impls and capability bounds of every register / buffer operation
 (device-driver/src/{lib,register,buffer}.rs), Integer::{min,max}_value (generation/src/mir/mod.rs),
 the impl_dedup_cast! rows (device-driver/src/ops.rs), the statement order of run_passes
-(generation/src/mir/passes/mod.rs), and the hash-container iteration sites of the generator.
+(generation/src/mir/passes/mod.rs), the hash-container iteration sites of the generator, and the
+(byte order, bit order) -> ops function arms of get_read_function / get_write_function.
 """
 import os, re, sys
 
@@ -110,6 +111,18 @@ def dedup_rows():
     return rows
 
 
+def codec_table():
+    """The (byte order, bit order) -> ops function arms of get_read_function / get_write_function."""
+    src = strip_comments(strip_tests(read("generation/src/lir/token_transform/field_set_transform.rs")))
+    rows = []
+    for which, fn in (("read", "get_read_function"), ("write", "get_write_function")):
+        m = re.search(r"fn " + fn + r"\b(.*?)\n}\n", src, flags=re.S)
+        body = m.group(1) if m else ""
+        for a in re.finditer(r"\(\s*ByteOrder::(\w+)\s*,\s*BitOrder::(\w+)\s*\)\s*=>\s*\{?\s*quote!\s*\{\s*::device_driver::ops::(\w+)::<\s*#base_type\s*,\s*::device_driver::ops::(\w+)\s*>", body):
+            rows.append((which, a.group(1), a.group(2), a.group(3), a.group(4)))
+    return rows
+
+
 def pass_order():
     src = strip_comments(read("generation/src/mir/passes/mod.rs"))
     m = re.search(r"pub fn run_passes\(.*?\{(.*?)\n\}", src, flags=re.S)
@@ -141,6 +154,7 @@ def main():
     rows = dedup_rows()
     order = pass_order()
     sites = hash_iteration_sites()
+    codecs = codec_table()
     L = []
     L.append("/- GENERATED by tools/extract.py from /repo's working tree on every run. Do not edit. -/")
     L.append("namespace DDV.Extracted\n")
@@ -165,6 +179,9 @@ def main():
     L.append("\n/-- places where the generator iterates a HashMap / HashSet (file, variable, line) -/")
     L.append("def hashIterationSites : List (String × String × Nat) := " + lean_list(
         ["(%s, %s, %d)" % (lean_str(a), lean_str(b), c) for a, b, c in sites]))
+    L.append("\n/-- arms of `get_read_function` / `get_write_function`: (read|write, ByteOrder, BitOrder, ops function, ops byte-order type) -/")
+    L.append("def codecTable : List (String × String × String × String × String) := " + lean_list(
+        ["(%s, %s, %s, %s, %s)" % tuple(lean_str(x) for x in r) for r in codecs]))
     L.append("\nend DDV.Extracted")
     text = "\n".join(L) + "\n"
     os.makedirs(os.path.dirname(OUT), exist_ok=True)
